@@ -319,7 +319,11 @@ func ruleGFPolyArith(c *Ctx) {
 				}
 			}
 		})
-		if mk == nil || cp == nil {
+		if mk != nil && cp == nil {
+			// the result is built by appending: first the leading part of the longer list, then one
+			// combined coefficient per position - the position is the length reached so far
+			gfAppendForm(c, R, n, fn)
+		} else if mk == nil || cp == nil {
 			c.Undecided(R, "utils.(*GFPoly).AddOrSubstract/shape", fn.Pos(), "result slice / prefix copy not found")
 		} else {
 			// large / small: the two complementary phis
@@ -654,4 +658,131 @@ func loopExitsOnlyAtHeader(hdr *ssa.BasicBlock) bool {
 		}
 	}
 	return true
+}
+
+// gfAppendForm: AddOrSubstract with the result built by append. Obligations mirror the index form:
+// prefix = large[:len(large)-len(small)], then for i from that length to len(large): large[i] xor
+// small[i-diff], one append per iteration (so that the position equals i).
+func gfAppendForm(c *Ctx, R string, n *Normer, fn *ssa.Function) {
+	var prefix, elem *appendSite
+	for _, s := range appendSites(fn) {
+		s := s
+		if enclosingLoopHeader(s.call.Block()) != nil && len(s.elems) == 1 {
+			elem = &s
+		}
+	}
+	// the spread append of the prefix: append(x, slice...) has no element list
+	var prefixCall *ssa.Call
+	eachInstr(fn, func(b *ssa.BasicBlock, ins ssa.Instruction) {
+		call, ok := ins.(*ssa.Call)
+		if !ok {
+			return
+		}
+		if bi, ok := call.Common().Value.(*ssa.Builtin); ok && bi.Name() == "append" && len(call.Common().Args) == 2 && enclosingLoopHeader(b) == nil {
+			if _, isSlice := call.Common().Args[1].(*ssa.Slice); isSlice {
+				prefixCall = call
+			}
+		}
+	})
+	_ = prefix
+	if prefixCall == nil || elem == nil {
+		c.Undecided(R, "utils.(*GFPoly).AddOrSubstract/shape", fn.Pos(), "result slice / prefix copy not found")
+		return
+	}
+	sl := prefixCall.Common().Args[1].(*ssa.Slice)
+	large := sl.X
+	xorCalls := callsTo(fn, c.P.Func("utils.(*GaloisField).AddOrSub"))
+	if len(xorCalls) != 1 {
+		c.Undecided(R, "utils.(*GFPoly).AddOrSubstract/operands", prefixCall.Pos(), "element combination not found")
+		return
+	}
+	xorCall := xorCalls[0]
+	baseOf := func(v ssa.Value) ssa.Value {
+		if cv, ok := v.(*ssa.Convert); ok {
+			v = cv.X
+		}
+		if ld, ok := v.(*ssa.UnOp); ok {
+			if ia, ok := ld.X.(*ssa.IndexAddr); ok {
+				return ia.X
+			}
+		}
+		return nil
+	}
+	a0, a1 := baseOf(xorCall.Common().Args[1]), baseOf(xorCall.Common().Args[2])
+	var small ssa.Value
+	for _, v := range []ssa.Value{a0, a1} {
+		if v != nil && v != large {
+			small = v
+		}
+	}
+	c.Check(R, "utils.(*GFPoly).AddOrSubstract/same-large", prefixCall.Pos(), small != nil && (a0 == large || a1 == large), "the prefix is taken from the same (longer) list that supplies large[i]", fmt.Sprintf("prefix source %s, combined %s / %s", n.Norm(large), nz(n, a0), nz(n, a1)))
+	if small == nil {
+		return
+	}
+	checkCases(c, R, "utils.(*GFPoly).AddOrSubstract/large", prefixCall.Pos(), n.valueCases(fn, nil, large, 0), []edgeSpec{{"other.Coefficients", "len(gp.Coefficients) <= len(other.Coefficients)"}, {"gp.Coefficients", "len(gp.Coefficients) > len(other.Coefficients)"}})
+	checkCases(c, R, "utils.(*GFPoly).AddOrSubstract/small", prefixCall.Pos(), n.valueCases(fn, nil, small, 0), []edgeSpec{{"gp.Coefficients", "len(gp.Coefficients) <= len(other.Coefficients)"}, {"other.Coefficients", "len(gp.Coefficients) > len(other.Coefficients)"}})
+	n.Bind[large], n.Bind[small] = "L", "S"
+	// prefix: appended to an EMPTY slice, large[:len(L)-len(S)]
+	emptyBase := false
+	if bm, ok := prefixCall.Common().Args[0].(*ssa.MakeSlice); ok {
+		k, isK := n.Norm(bm.Len).IsConst()
+		emptyBase = isK && k == 0
+	} else if isNilConst(prefixCall.Common().Args[0]) {
+		emptyBase = true
+	}
+	c.Check(R, "utils.(*GFPoly).AddOrSubstract/copy-dst", prefixCall.Pos(), emptyBase, "the prefix starts the (empty) result", n.Norm(prefixCall.Common().Args[0]).String())
+	lowOK := sl.Low == nil
+	if sl.Low != nil {
+		k, isK := n.Norm(sl.Low).IsConst()
+		lowOK = isK && k == 0
+	}
+	c.Check(R, "utils.(*GFPoly).AddOrSubstract/prefix-len", prefixCall.Pos(), lowOK && sl.High != nil && pEqual(n.Norm(sl.High), MustRef("len(L) - len(S)")), "L[:len(L)-len(S)]", n.Norm(sl).String())
+	// the loop: i from len(L)-len(S) while i < len(L), one append per iteration, onto the prefix
+	h := enclosingLoopHeader(elem.call.Block())
+	shapes := loopShapes(n, h)
+	// (the counter, not the accumulated slice)
+	var cnt []loopVar
+	for _, sh := range shapes {
+		if isIntType(sh.idx.Type()) {
+			cnt = append(cnt, sh)
+		}
+	}
+	shapes = cnt
+	var idx ssa.Value
+	if len(shapes) > 0 {
+		idx = shapes[0].idx
+	}
+	if len(shapes) == 0 {
+		c.Undecided(R, "utils.(*GFPoly).AddOrSubstract/loop", elem.call.Pos(), "combining loop is not a counting loop")
+		return
+	}
+	first := shapes[0].init
+	n.Bind[idx] = "q"
+	c.Check(R, "utils.(*GFPoly).AddOrSubstract/loop-start", elem.call.Pos(), pEqual(first, MustRef("len(L) - len(S)")) && pEqual(shapes[0].step, pConst(1)), "q from len(L)-len(S) step 1", fmt.Sprintf("first %s, step %s", first, shapes[0].step))
+	c.expectCondC(R, "utils.(*GFPoly).AddOrSubstract/loop-while", elem.call.Pos(), n.EdgeCond(h, h.Succs[0]), MustRefCond("q < len(L)"))
+	args := []string{n.Norm(xorCall.Common().Args[1]).String(), n.Norm(xorCall.Common().Args[2]).String()}
+	sort.Strings(args)
+	want := []string{"L[q]", "S[" + MustRef("q - (len(L) - len(S))").String() + "]"}
+	c.Check(R, "utils.(*GFPoly).AddOrSubstract/combine", xorCall.Pos(), fmt.Sprint(args) == fmt.Sprint(want), fmt.Sprint(want), fmt.Sprint(args))
+	c.Check(R, "utils.(*GFPoly).AddOrSubstract/combine-stored", elem.call.Pos(), strip(elem.elems[0]) == ssa.Value(xorCall) || strings.Contains(n.Norm(elem.elems[0]).String(), "AddOrSub"), "the combined value is appended", n.Norm(elem.elems[0]).String())
+	// exactly one append per iteration, onto the accumulated result that starts as the prefix
+	var acc *ssa.Phi
+	for _, ins := range h.Instrs {
+		if p, ok := ins.(*ssa.Phi); ok {
+			if _, isSl := p.Type().Underlying().(*types.Slice); isSl {
+				acc = p
+			}
+		}
+	}
+	okAcc := acc != nil && elem.call.Common().Args[0] == ssa.Value(acc)
+	if okAcc {
+		for ei, e := range acc.Edges {
+			if h.Dominates(h.Preds[ei]) {
+				okAcc = okAcc && e == ssa.Value(elem.call)
+			} else {
+				okAcc = okAcc && e == ssa.Value(prefixCall)
+			}
+		}
+	}
+	c.Check(R, "utils.(*GFPoly).AddOrSubstract/result-len", elem.call.Pos(), okAcc, "one append per position onto the prefix (position = length so far = q)", fmt.Sprint(okAcc))
 }
